@@ -239,6 +239,8 @@ class BareProvisioner:
         provisioner_vars = {}
         provisioner_vars.update(self.es_installer.variables)
         provisioner_vars.update(plugin_variables)
+        # Rally's own node variables always win - also over plugin variables
+        provisioner_vars.update(self.es_installer.node_variables)
         provisioner_vars["cluster_settings"] = cluster_settings
 
         return provisioner_vars
@@ -301,11 +303,11 @@ class ElasticsearchInstaller:
         self.hook_handler.invoke(phase.name, variables=variables, env=env)
 
     @property
-    def variables(self):
+    def node_variables(self):
         # bind as specifically as possible
         network_host = self.node_ip
 
-        defaults = {
+        return {
             "cluster_name": self.cluster_name,
             "node_name": self.node_name,
             "data_paths": self.data_paths,
@@ -324,9 +326,12 @@ class ElasticsearchInstaller:
             "minimum_master_nodes": len(self.all_node_ips),
             "install_root_path": self.es_home_path,
         }
+
+    @property
+    def variables(self):
         variables = {}
         variables.update(self.car.variables)
-        variables.update(defaults)
+        variables.update(self.node_variables)
         return variables
 
     @property
